@@ -436,4 +436,40 @@ theorem combine_bits_spec (res : List Nat) (cs : List (List Nat)) (bits ol : Nat
     simp only [Nat.mul_zero, Nat.add_zero, pow_zero] at h3
     exact ⟨h1, h2, fin _ h1 h2 h3⟩
 
+/-! ### round trip -/
+
+theorem val_inj : ∀ (a b : List Nat), Limbs a → Limbs b → a.length = b.length → val a = val b → a = b
+  | [], [], _, _, _, _ => rfl
+  | [], _ :: _, _, _, h, _ => by simp at h
+  | _ :: _, [], _, _, h, _ => by simp at h
+  | x :: xs, y :: ys, ha, hb, hl, hv => by
+    have ⟨hx, hxs⟩ := Limbs_cons.mp ha
+    have ⟨hy, hys⟩ := Limbs_cons.mp hb
+    simp only [val_cons] at hv
+    have e1 : x = y := by
+      have h1 := congrArg (· % B) hv
+      simp only [Nat.add_mul_mod_self_left, Nat.mod_eq_of_lt hx, Nat.mod_eq_of_lt hy] at h1
+      exact h1
+    subst e1
+    have e2 : val xs = val ys := by
+      have : B * val xs = B * val ys := by omega
+      exact Nat.eq_of_mul_eq_mul_left B_pos this
+    rw [val_inj xs ys hxs hys (by simpa using hl) e2]
+
+theorem coeffsSmall_of_OK {bits ol : Nat} {cs : List (List Nat)} (h : CoeffsOK bits ol cs) (hb : bits ≤ 64 * ol) :
+    CoeffsSmall ol cs := fun c hc =>
+  ⟨(h c hc).1, (h c hc).2.1, lt_of_lt_of_le (h c hc).2.2 (by rw [B_pow_two']; exact Nat.pow_le_pow_right (by norm_num) hb)⟩
+
+/-- splitting and recombining into a zeroed destination of the same length is the identity -/
+theorem split_combine (x : List Nat) (bits ol : Nat) (hx : Limbs x) (hn : 1 ≤ x.length) (hb : 1 ≤ bits)
+    (hol : bits ≤ 64 * ol) :
+    combine_bits (List.replicate x.length 0) (split_bits x bits ol) bits ol = x := by
+  obtain ⟨s1, s2, _⟩ := split_bits_spec x bits ol hx hn hb (by omega)
+  have hz : Limbs (List.replicate x.length 0) := Limbs_replicate_zero _
+  obtain ⟨c1, c2, c3⟩ := combine_bits_spec (List.replicate x.length 0) (split_bits x bits ol) bits ol hz
+    (val_replicate_zero _) hb (coeffsSmall_of_OK s2 hol)
+  simp only [List.length_replicate] at c1 c3
+  apply val_inj _ _ c2 hx c1
+  rw [c3, s1]; exact Nat.mod_eq_of_lt (val_lt x hx)
+
 end Mpir.Fft
